@@ -126,7 +126,14 @@ DataMix ==
      Raw("string a\\xe9\\xe9\\xe9", StringBytes(<<97, 92, 120, 101, 57, 92, 120, 101, 57, 92, 120, 101, 57>>)),
      Align(2), Align(4), Align(8), Align(3) >> \o GapItems
 
-Alpha == CASE Class = "datamix" -> DataMix [] Class = "abs" -> Abs [] Class = "oddalign" -> OddAlign [] Class = "control" -> Control [] Class = "far" -> Far [] Class = "values" -> Values
+\* pseudo-branches and pseudo-jumps at the edges of their ranges, between items whose size is only settled late
+PBranch ==
+  << Lab("L1"), I4, IC, Li(9, 0, 5), Pj("call", "L1"),
+     Pbr("beqz", 8, 0, "L1"), Pbr("bnez", 9, 0, "L1"), Pbr("bgez", 5, 0, "L1"), Pbr("blez", 5, 0, "L1"),
+     Pbr("bgt", 5, 6, "L1"), Pbr("bleu", 8, 9, "L1"), Pj("j", "L1"), Pj("jal", "L1"),
+     Align(4), Align(4096), Data(1), Data(2) >> \o GapItems
+
+Alpha == CASE Class = "pbranch" -> PBranch [] Class = "datamix" -> DataMix [] Class = "abs" -> Abs [] Class = "oddalign" -> OddAlign [] Class = "control" -> Control [] Class = "far" -> Far [] Class = "values" -> Values
            [] Class = "aligns" -> Aligns [] OTHER -> Literals
 
 VARIABLE prog      \* sequence of alphabet indices
@@ -156,4 +163,16 @@ WellFormed(its) ==
 
 Export == WellFormed(Items(prog)) => PrintT(<<"P", prog>>)
 ASSUME PrintT(<<"ALPHA", Alpha>>)
+\* the same item written as the base instruction the instruction reference documents for it (pseudo-branches, j, jal label)
+\* docs/instruction_reference.rst, pseudo-instruction table (the same table as AsmRef!PbrBase, which this module does not import)
+DocBranch(it) ==
+  CASE it.m = "beqz" -> <<"beq", it.a, 0>> [] it.m = "bnez" -> <<"bne", it.a, 0>>
+    [] it.m = "bgez" -> <<"bge", it.a, 0>> [] it.m = "bltz" -> <<"blt", it.a, 0>>
+    [] it.m = "blez" -> <<"bge", 0, it.a>> [] it.m = "bgtz" -> <<"blt", 0, it.a>>
+    [] it.m = "bgt" -> <<"blt", it.b, it.a>> [] it.m = "ble" -> <<"bge", it.b, it.a>>
+    [] it.m = "bgtu" -> <<"bltu", it.b, it.a>> [] OTHER -> <<"bgeu", it.b, it.a>>
+PlainOf(it) == IF it.k = "pbr" THEN LET b == DocBranch(it) IN It("br", b[1], "", b[2], b[3], 0, it.t, 0)
+               ELSE IF it.k = "pj" /\ it.m \in {"j", "jal"} THEN Jal(IF it.m = "j" THEN 0 ELSE 1, it.t)
+               ELSE it
+ASSUME PrintT(<<"PLAIN", [j \in 1..Len(Alpha) |-> PlainOf(Alpha[j])]>>)
 =============================================================================
